@@ -54,14 +54,14 @@ def r02b(ctx):
         if ex is None:
             continue
         sub = None
-        for p in paths(repo, ex):
+        for p in paths(repo, ex, keep=()):
             for e in p.calls():
                 mc = method_call(e.data[0])
                 if mc and mc[1] == 'get_submodule':
                     sub = e.data[0]
         if sub is None:
             raise AnalysisError(f'{ci.name}.export: get_submodule not found')
-        for p in returning(paths(repo, ex)):
+        for p in returning(paths(repo, ex, keep=())):
             per_channel = any('MPSPerChannelQtz' in show(a) and v for a, v in p.assumptions)
             for e in p.calls():
                 t = e.data[0]
